@@ -18,8 +18,10 @@ Tie to the code, on every run (needs the RKCOMMON_VERIF scheduling points in Asy
   4. unforced stress (start/stop cycles, body checks a "stop has returned" flag), plain and with random delays
      injected after every atomic access of AsyncLoop (works without hooks: fallback when the tree has none).
 """
-import json, os, re, signal, subprocess, threading, time
+import json, os, re, signal, subprocess, sys, threading, time
 import vlib
+sys.path.insert(0, os.path.dirname(os.path.abspath(__file__)))
+import factgen  # noqa: E402
 
 ORACLE_TEXT = {
     "stop_safe": ("the loop body is executing although stop() has returned and start() has not been called since",
@@ -218,6 +220,62 @@ def stress(ctx, exe, launch, cycles, seed, inject, budget_ms):
             "inject": inject, "body_runs": runs, "body_while_stopped": bad, "lost_wakeups": lost}
 
 
+FACT_THMS = ("facts_loop", "facts_start", "facts_stop", "facts_dtor", "facts_loop_order", "facts_start_order",
+             "facts_stop_order_and_lock_free", "facts_dtor_order", "facts_wait_predicate", "facts_members",
+             "facts_state_ownership", "facts_ctor")
+FACT_LEMMA = {"loop_lemma": "facts_loop", "start_lemma": "facts_start", "stop_lemma": "facts_stop", "dtor_lemma": "facts_dtor",
+              "loop_shape_lemma": "facts_loop_order", "start_shape_lemma": "facts_start_order",
+              "stop_shape_lemma": "facts_stop_order_and_lock_free", "dtor_shape_lemma": "facts_dtor_order",
+              "wait_pred_lemma": "facts_wait_predicate", "members_lemma": "facts_members", "ownership_lemma": "facts_state_ownership",
+              "ctor_lemma": "facts_ctor"}
+UNKNOWN_FACTS = {"loop": 'BCons (SUnknown "extraction failed") BNil', "start": 'BCons (SUnknown "extraction failed") BNil',
+                 "stop": 'BCons (SUnknown "extraction failed") BNil', "dtor": 'BCons (SUnknown "extraction failed") BNil',
+                 "data_members": [], "class_members": [],
+                 "ctor": {"state_make_shared": False, "state_stored_in_loop": False, "capture_coowns_state": False, "capture_body_by_value": False,
+                          "auto_guard": False, "auto_threshold": 0, "auto_then": "MAuto", "auto_else": "MAuto", "d_test": "MAuto",
+                          "d_then": "TASK", "d_else": "TASK"}}
+
+
+def source_facts(ctx):
+    """Tie C: regenerate coq/C03/gen/Facts.v from the clang AST of the working tree's AsyncLoop.h"""
+    gen_v = os.path.join(ctx.coqdir, "gen", "Facts.v")
+    js = os.path.join(ctx.build, "facts.json")
+    try:
+        factgen.main(["--repo", ctx.repo, "--out", gen_v, "--json", js, "--work", os.path.join(ctx.build, "ast")])
+        facts = json.load(open(js))
+    except Exception as ex_:      # fail closed: facts nobody can prove
+        ctx.log("fact extraction failed: %r" % (ex_,))
+        os.makedirs(os.path.dirname(gen_v), exist_ok=True)
+        txt = factgen.coq_text(UNKNOWN_FACTS)
+        if not os.path.exists(gen_v) or open(gen_v).read() != txt:
+            open(gen_v, "w").write(txt)
+        facts = dict(UNKNOWN_FACTS, notes=["extraction failed: %r" % (ex_,)])
+    unknown = re.findall(r'SUnknown "([^"]*)"', " ".join(str(facts.get(k)) for k in ("loop", "start", "stop", "dtor")))
+    ctx.cov["source_facts"] = {"notes": facts.get("notes"), "unrecognised_statements": unknown[:6], "ctor": facts.get("ctor"),
+                               "data_members": facts.get("data_members"), "class_members": facts.get("class_members")}
+    return facts
+
+
+def first_broken_fact(ctx, res):
+    """name of the first failing lemma of FactsCheck.v (the build stops there), as the theorem of PropertiesFacts.v"""
+    if all(res.get(t_) for t_ in FACT_THMS):
+        return None
+    log = getattr(ctx, "coq_log", "")
+    m = re.search(r'File "\./(FactsCheck|FactsDefs|gen/Facts)\.v", line (\d+)', log)
+    name = None
+    if m and m.group(1) == "FactsCheck":
+        line = int(m.group(2))
+        src = open(os.path.join(ctx.coqdir, "FactsCheck.v")).read().split("\n")
+        for ln in reversed(src[:line]):
+            mm = re.match(r"\s*Lemma\s+(\w+)", ln)
+            if mm:
+                name = FACT_LEMMA.get(mm.group(1), mm.group(1))
+                break
+    elif m:
+        name = "(coq/C03/%s.v does not compile)" % m.group(1)
+    return name or "(facts file did not build)"
+
+
 METHODS, SIZES = ("THREAD", "TASK", "AUTO"), (0, 2, 8)     # 0 = tasking system not initialised
 
 
@@ -373,7 +431,24 @@ def run(ctx):
         return
 
     ctx.sup = Sup(ctx)
-    ctx.coq_check(("Properties.v",))
+    facts = source_facts(ctx)
+    res = ctx.coq_check(("Properties.v", "PropertiesFacts.v"))
+    broken_fact = first_broken_fact(ctx, res)
+    ctx.cov["source_fact_broken"] = broken_fact
+    if broken_fact:
+        ctx.broken[:] = [b_ for b_ in ctx.broken if not b_.startswith("theorem facts_")]
+        ctx.broken.insert(0, "source fact %s (coq/C03/PropertiesFacts.v) no longer holds for the AsyncLoop.h of this tree: the extracted "
+                             "micro-operations do not denote the model's transitions (unrecognised statements: %s)"
+                          % (broken_fact, ctx.cov["source_facts"]["unrecognised_statements"]))
+        ctx.log("SOURCE FACT BROKEN: %s -- the micro-operations extracted from AsyncLoop.h no longer denote the model's transitions; "
+                "unrecognised: %s; notes: %s; searching for a concrete failing schedule"
+                % (broken_fact, ctx.cov["source_facts"]["unrecognised_statements"], facts.get("notes")))
+        _viol = ctx.violation
+
+        def violation_with_fact(what, replay, found_input=True, signature=None):
+            replay = dict(replay, broken_source_fact=broken_fact)
+            return _viol(what + "  [source fact broken: %s]" % broken_fact, replay, found_input=found_input, signature=signature)
+        ctx.violation = violation_with_fact
     model = ctx.extract()
     exe, exe_tbb, exe_asan = ctx.cxx_many([dict(sources=["harness.cpp"], out="harness", backend="omp", sanitize=None),
                                            dict(sources=["harness.cpp"], out="harness_tbb", backend="tbb", sanitize=None),
@@ -385,6 +460,9 @@ def run(ctx):
         "hand-written model (Tie B) tied to the code by forced-schedule replay: harness/C03/harness.cpp (scheduling controller, mutex probe for "
         "'asleep', private state via #define private public), ocaml/C03/driver.ml (edge enumeration, shortest paths), props/C03/check.py",
         "the scheduling points added to rkcommon/tasking/AsyncLoop.h under #ifdef RKCOMMON_VERIF (guard off: preprocessed source identical)",
+        "fact extractor props/C03/factgen.py + tools/sxast/sxast.py over `clang++ -std=c++11 -DRKCOMMON_VERIF -fsyntax-only -Xclang -ast-dump=json` of "
+        "the working tree's AsyncLoop.h (statement patterns -> coq/C03/gen/Facts.v); the meaning given to each micro-operation is "
+        "coq/C03/FactsDefs.v (compile/exec), whose agreement with Model.step_loop/step_ctl is PropertiesFacts.v",
         "g++ -O1, libstdc++ std::thread/mutex/condition_variable; tasking::schedule of the OpenMP backend (detached std::thread) and of the TBB "
         "backend (task_arena::enqueue), tasking::initTaskingSystem / numTaskingThreads of both",
     ]
@@ -656,7 +734,7 @@ def run(ctx):
             ctx.cov["tsan_stress_rc"] = rc
             if rc == 97:
                 ctx.broken.append("ThreadSanitizer reports a data race in AsyncLoop under stress: " + err[-600:])
-        ctx.coq_thorough_chk(["C03.Properties"])
+        ctx.coq_thorough_chk(["C03.Properties", "C03.PropertiesFacts"])
     ctx.rule = ("forced schedules = for every edge of the model's reachable graph (both launch methods) a shortest path from the initial state "
                 "followed by that edge, plus seeded random walks of 20-120 steps; each replayed step by step on the real AsyncLoop with all "
                 "observables compared; non-trivial = the loop thread takes at least one step while the controller is inside start()/stop()/"
